@@ -216,6 +216,9 @@ NEG = {"Lt": "Ge", "Le": "Gt", "Gt": "Le", "Ge": "Lt", "Eq": "Ne", "Ne": "Eq"}
 SWAP = {"Lt": "Gt", "Le": "Ge", "Gt": "Lt", "Ge": "Le", "Eq": "Eq", "Ne": "Ne"}
 
 
+COVER = set()  # (body key, basic block) executed by any run of this process (C09 inventory)
+
+
 class Frame:
     __slots__ = ("key", "body", "locals", "visits", "prev_bb")
 
@@ -586,6 +589,9 @@ class Interp:
                     self.run.panics.append(("div_by_zero", self.where()))
                     raise PathEnd("panic", "division by zero")
         may_overflow = lo is None or lo < tlo or hi > thi
+        if may_overflow and base == "Add" and self.sum_below_bound(l, r):
+            may_overflow = False
+            lo, hi = max(lo, tlo), min(hi, thi)
         if base in ("Shl", "Shr"):
             bits = INT_TYPES[ty][0]
             may_overflow = not (blo >= 0 and bhi < bits)
@@ -599,6 +605,16 @@ class Interp:
             # wrapping semantics: interval unknown
             return Sym(sname, (l, r), ty)
         return Sym(sname, (l, r), ty, lo, hi)
+
+    def sum_below_bound(self, l, r):
+        """b + d  with  d < a.saturating_sub(b)  (a fact carried by the draw d)  is < a: no overflow"""
+        for x, d in ((l, r), (r, l)):
+            if is_sym(d) and "rel" in d.attrs:
+                ra = d.attrs.get("rel_args") or []
+                for kind, i in d.attrs["rel"]:
+                    if kind == "lt_arg" and i < len(ra) and is_sym(ra[i]) and ra[i].op == "sat_sub" and ra[i].args[1] is x:
+                        return True
+        return False
 
     def cast_int(self, v, from_ty, to_ty):
         if hasattr(v, "cast_to"):
@@ -866,6 +882,7 @@ class Interp:
             while True:
                 n = fr.visits.get(bb, 0) + 1
                 fr.visits[bb] = n
+                COVER.add((fr.key, bb))
                 if n > self.loop_limit:
                     raise PathEnd("bound", "loop bound at %s bb%d" % (fr.key, bb))
                 if bb in loops and fr.prev_bb in loops[bb]["latches"]:
